@@ -33,9 +33,12 @@ def run_cli(cmd, text, timeout_s):
         os.unlink(path)
 
 
-def discharge(vc, timeout_ms=None, fallbacks=True):
+def discharge(vc, timeout_ms=None, fallbacks=True, seed=None):
     """returns dict(name, kind, verdict, backend, time_s, model, reason)"""
     timeout_ms = timeout_ms or QUICK_TIMEOUT_MS
+    if seed is not None:
+        z3.set_param('smt.random_seed', seed)
+        z3.set_param('sat.random_seed', seed)
     res = dict(name=vc.name, kind=vc.kind, verdict='unknown', backend='z3-5.1(py)', time_s=0.0, model=None, reason='')
     t0 = time.time()
     if z3.is_true(vc.goal):
